@@ -14,6 +14,7 @@ import os, sys, json, time, hashlib, importlib, subprocess, traceback, base64, i
 VERIF = os.path.dirname(os.path.dirname(os.path.abspath(__file__)))
 TMPROOT = os.path.join(VERIF, ".build", "tmp")
 ASAN_EXIT = 66
+HANG_EXIT = 67          # a call of the code under test did not return (see guard_deadline)
 
 # --------------------------------------------------------------------------- encoding
 
@@ -390,6 +391,33 @@ def guard(fn, *a, **k):
         return False, e
 
 
+def guard_deadline(rec, sub, case, seconds, fn, *a, **k):
+    """guard() for calls that start threads of their own (a worker that dies leaves the others waiting for ever): the
+    call runs in a thread; when it has not returned after `seconds` - hundreds of times what it takes on the unchanged
+    tree - the case is written next to the shard's output and the shard ends with HANG_EXIT; the supervisor reports
+    the case as a failure of kind "hang".  Without a recorder (replay) the failure is returned."""
+    import threading
+    box = {}
+
+    def run():
+        try:
+            box["r"] = (True, fn(*a, **k))
+        except Exception as e:      # noqa
+            box["r"] = (False, e)
+    t = threading.Thread(target=run, daemon=True)
+    t.start()
+    t.join(seconds)
+    if "r" in box:
+        return box["r"]
+    if rec is None:
+        return False, RuntimeError("the call did not return within %d s" % seconds)
+    with open(rec.journal_path[:-len(".journal")] + ".hang", "w") as f:
+        json.dump({"sub": sub, "case": enc(case), "seconds": seconds}, f)
+    rec.flush()
+    sys.stdout.flush()
+    os._exit(HANG_EXIT)
+
+
 def fail(kind, detail, **sig):
     return {"kind": kind, "detail": detail if isinstance(detail, str) else repr(detail),
             "sig": sig}
@@ -593,7 +621,19 @@ def run_check(pid, tier):
                  or rc == ASAN_EXIT or (rc is not None and rc < 0))
         if res is not None:
             allres.append(res)
-        if sanit and os.path.exists(jpath):
+        hpath = out + ".hang"
+        if rc == HANG_EXIT and os.path.exists(hpath):
+            with open(hpath) as f:
+                j = json.load(f)
+            v = {"sub": j["sub"], "case": j["case"], "shard": k,
+                 "failures": [fail("hang", "the call did not return within %s s (other cases take about a second): "
+                                   "threads left waiting for one another" % j.get("seconds"))]}
+            if res is None:
+                allres.append(dict(pid=pid, shard=k, evaluations=0, nt=[], classes={},
+                                   samples=[], excluded={}, known_hits={},
+                                   violations=[], notes={}, how={}))
+            allres[-1].setdefault("violations", []).append(v)
+        elif sanit and os.path.exists(jpath):
             with open(jpath) as f:
                 j = json.load(f)
             v = {"sub": j["sub"], "case": j["case"], "shard": k,
